@@ -394,12 +394,265 @@ class _ReplaceChnm(ast.NodeTransformer):
         return node
 
 
+class _PEval:
+    """Partial evaluation of `load_chunk` for one concrete chunk number: locals hold either a Python constant or an expression
+    over `self` / `chunk`; branches whose test is decided are followed; the first statement with an effect on `self` names the
+    target.  Dispatch through tables (`{0: self.load_a}.get(chnm)`, `(self.a, self.b)[chnm & 1]`, `getattr(self, NAMES[chnm])`)
+    is followed like an if-chain."""
+
+    class Stop(Exception):
+        def __init__(self, target, node):
+            self.target, self.node = target, node
+
+    def __init__(self, repo: Repo, ci: ClassInfo, owner: ClassInfo, k: int, chunk_param: str):
+        self.repo, self.ci, self.owner, self.k, self.cp = repo, ci, owner, k, chunk_param
+        self.const: Dict[str, Any] = {}
+        self.sym: Dict[str, ast.expr] = {}
+
+    # ---- expressions
+    def subst(self, e: ast.expr) -> ast.expr:
+        me = self
+
+        class S(ast.NodeTransformer):
+            def visit_Name(self, node):
+                if isinstance(node.ctx, ast.Load) and node.id in me.sym:
+                    return copy.deepcopy(me.sym[node.id])
+                if isinstance(node.ctx, ast.Load) and node.id in me.const and isinstance(me.const[node.id], (int, str, bytes, bool, type(None))):
+                    return ast.Constant(value=me.const[node.id])
+                return node
+
+            def visit_Attribute(self, node):
+                if norm(node) == f"{me.cp}.chnm":
+                    return ast.Constant(value=me.k)
+                return self.generic_visit(node)
+        out = S().visit(copy.deepcopy(e))
+        ast.fix_missing_locations(out)
+        return out
+
+    def value(self, e: ast.expr):
+        """('c', python value) | ('s', expression)"""
+        e = self.subst(e)
+        try:
+            return ("c", self.repo.fold(e, ci=self.ci, sf=self.owner.file))
+        except Exception:
+            pass
+        # table look-ups with a constant key / index
+        if isinstance(e, ast.Call) and isinstance(e.func, ast.Attribute) and e.func.attr == "get" and 1 <= len(e.args) <= 2:
+            picked = self._pick(e.func.value, e.args[0])
+            if picked is not None:
+                return picked if picked != "absent" else (self.value(e.args[1]) if len(e.args) == 2 else ("c", None))
+        if isinstance(e, ast.Subscript) and not isinstance(e.slice, ast.Slice):
+            picked = self._pick(e.value, e.slice)
+            if picked is not None and picked != "absent":
+                return picked
+        if isinstance(e, ast.Call) and norm(e.func) == "getattr" and len(e.args) >= 2 and norm(e.args[0]) == "self":
+            nm = self.value(e.args[1])
+            if nm[0] == "c" and isinstance(nm[1], str):
+                if self.repo.lookup(self.ci, nm[1]) is not None:
+                    return ("s", ast.Attribute(value=ast.Name(id="self", ctx=ast.Load()), attr=nm[1], ctx=ast.Load()))
+                if len(e.args) == 3:
+                    return self.value(e.args[2])
+        if isinstance(e, ast.IfExp):
+            t = self.truth(e.test)
+            if t is not None:
+                return self.value(e.body if t else e.orelse)
+        return ("s", e)
+
+    def _pick(self, container: ast.expr, key: ast.expr):
+        kv = self.value(key)
+        if kv[0] != "c":
+            return None
+        c = container
+        if isinstance(c, ast.Name) and c.id in self.sym:
+            c = self.sym[c.id]
+        if isinstance(c, (ast.Attribute, ast.Name)):
+            from . import inline
+            d = inline.definition_of(self.repo, self.ci, self.owner.file, c)
+            if d is not None:
+                c = d
+        c = self.subst(c) if not isinstance(c, (ast.Dict, ast.Tuple, ast.List)) else c
+        if isinstance(c, ast.Dict):
+            for kk, vv in zip(c.keys, c.values):
+                if kk is None:
+                    return None
+                kc = self.value(kk)
+                if kc[0] != "c":
+                    return None
+                if kc[1] == kv[1]:
+                    return self.value(vv)
+            return "absent"
+        if isinstance(c, (ast.Tuple, ast.List)) and isinstance(kv[1], int) and not any(isinstance(x, ast.Starred) for x in c.elts):
+            if -len(c.elts) <= kv[1] < len(c.elts):
+                return self.value(c.elts[kv[1]])
+            return None
+        return None
+
+    def truth(self, t: ast.expr) -> Optional[bool]:
+        if isinstance(t, ast.UnaryOp) and isinstance(t.op, ast.Not):
+            v = self.truth(t.operand)
+            return None if v is None else not v
+        if isinstance(t, ast.BoolOp):
+            vals = [self.truth(v) for v in t.values]
+            if isinstance(t.op, ast.And):
+                if any(v is False for v in vals):
+                    return False
+                return True if all(v is True for v in vals) else None
+            if any(v is True for v in vals):
+                return True
+            return False if all(v is False for v in vals) else None
+        if isinstance(t, ast.Compare) and len(t.ops) == 1 and isinstance(t.ops[0], (ast.Is, ast.IsNot)) \
+                and isinstance(t.comparators[0], ast.Constant) and t.comparators[0].value is None:
+            v = self.value(t.left)
+            if v[0] == "c":
+                return (v[1] is None) == isinstance(t.ops[0], ast.Is)
+            if isinstance(v[1], (ast.Attribute, ast.Lambda)):          # a bound method / attribute of self is an object
+                return isinstance(t.ops[0], ast.IsNot)
+            return None
+        if isinstance(t, ast.Compare) and len(t.ops) == 1 and isinstance(t.ops[0], (ast.In, ast.NotIn)):
+            kv = self.value(t.left)
+            c = t.comparators[0]
+            if kv[0] == "c":
+                p = self._pick(c, t.left) if not isinstance(self.value(c)[1] if self.value(c)[0] == "c" else None, (dict, tuple, list, set, frozenset, range)) else None
+                cv = self.value(c)
+                if cv[0] == "c" and isinstance(cv[1], (dict, tuple, list, set, frozenset, range)):
+                    return (kv[1] in cv[1]) == isinstance(t.ops[0], ast.In)
+                if p is not None:
+                    return (p != "absent") == isinstance(t.ops[0], ast.In)
+            return None
+        v = self.value(t)
+        if v[0] == "c":
+            return bool(v[1])
+        if isinstance(v[1], ast.Attribute) and norm(v[1]).startswith("self.") and norm(t) != norm(v[1]):
+            return True            # a local that holds a bound method
+        return None
+
+    # ---- statements
+    def run(self, stmts) -> None:
+        for st in stmts:
+            self.step(st)
+
+    def step(self, st: ast.stmt) -> None:
+        if isinstance(st, ast.If):
+            mentions = any(isinstance(n, ast.Name) and (n.id in self.const or n.id in self.sym) for n in ast.walk(st.test)) or f"{self.cp}.chnm" in norm(st.test)
+            t = self.truth(st.test)
+            if t is None:
+                if not mentions:
+                    return          # a test on something else (the legacy capture): not part of the dispatch
+                raise _PEval.Stop(f"?undecidable: {norm(st.test)}", st)
+            self.run(st.body if t else st.orelse)
+            return
+        if isinstance(st, ast.Return):
+            raise _PEval.Stop("", st)
+        if isinstance(st, (ast.Pass,)) or (isinstance(st, ast.Expr) and isinstance(st.value, ast.Constant)):
+            return
+        if isinstance(st, ast.Assign) and len(st.targets) == 1 and isinstance(st.targets[0], ast.Name):
+            v = self.value(st.value)
+            nm = st.targets[0].id
+            self.const.pop(nm, None)
+            self.sym.pop(nm, None)
+            if v[0] == "c":
+                self.const[nm] = v[1]
+            else:
+                self.sym[nm] = v[1]
+            return
+        # an effect: what it touches
+        st2 = copy.deepcopy(st)
+        if isinstance(st2, ast.Expr) and isinstance(st2.value, ast.Call):
+            f = self.value(st2.value.func)
+            if f[0] == "s":
+                st2.value.func = f[1]
+            elif f[0] == "c" and f[1] is None:
+                raise _PEval.Stop("", st)
+        elif isinstance(st2, ast.Assign) and len(st2.targets) == 1:
+            t = st2.targets[0]
+            base = t
+            chain = []
+            while isinstance(base, (ast.Attribute, ast.Subscript)):
+                chain.append(base)
+                base = base.value
+            if isinstance(base, ast.Name) and base.id in self.sym:
+                # target.bytes = …  with `target` picked from a table of self's attributes
+                new_base = self.sym[base.id]
+                st2.targets = [_rebase(t, base.id, new_base)]
+        st2 = _subst_stmt(self, st2)
+        tgt = body_target([st2], self.repo, self.ci)
+        if tgt.startswith("?"):
+            self.unknown = getattr(self, "unknown", None) or (tgt, st)
+            return
+        raise _PEval.Stop(tgt, st)
+
+
+def _rebase(t: ast.expr, name: str, new_base: ast.expr) -> ast.expr:
+    class R(ast.NodeTransformer):
+        def visit_Name(self, node):
+            if node.id == name:
+                return copy.deepcopy(new_base)
+            return node
+    return R().visit(copy.deepcopy(t))
+
+
+def _subst_stmt(pe: "_PEval", st: ast.stmt) -> ast.stmt:
+    class S(ast.NodeTransformer):
+        def visit_Attribute(self, node):
+            if norm(node) == f"{pe.cp}.chnm":
+                return ast.Constant(value=pe.k)
+            return self.generic_visit(node)
+
+        def visit_Name(self, node):
+            if isinstance(node.ctx, ast.Load) and node.id in pe.const and isinstance(pe.const[node.id], (int, str, bytes, bool)):
+                return ast.Constant(value=pe.const[node.id])
+            if isinstance(node.ctx, ast.Load) and node.id in pe.sym:
+                return copy.deepcopy(pe.sym[node.id])
+            return node
+
+        def visit_Subscript(self, node):
+            node = self.generic_visit(node)
+            # (a, b, c)[1]  ->  b      /   {k: v}[k]
+            v = pe.value(node) if isinstance(node.ctx, ast.Load) else None
+            if v is not None and v[0] == "s" and v[1] is not node and norm(v[1]) != norm(node):
+                return v[1]
+            return node
+
+        def visit_IfExp(self, node):
+            t = pe.truth(node.test)
+            if t is not None:
+                return self.visit(node.body if t else node.orelse)
+            return self.generic_visit(node)
+
+        def visit_Call(self, node):
+            node = self.generic_visit(node)
+            if norm(node.func) == "getattr":
+                v = pe.value(node)
+                if v[0] == "s" and norm(v[1]) != norm(node):
+                    return v[1]
+            return node
+    out = S().visit(copy.deepcopy(st))
+    ast.fix_missing_locations(out)
+    return out
+
+
 def reader_target(repo: Repo, ci: ClassInfo, k: int) -> Tuple[str, Optional[ast.AST]]:
     """Field that chunk number k is loaded into by ci.load_chunk ('' = not dispatched)."""
     r = repo.lookup(ci, "load_chunk")
     if r is None or r[1] != "method":
         return "", None
     owner, fn = r[0], r[2]
+    from . import inline as _inl
+    flat0 = _inl.normalize(repo, owner, fn)
+    cparam = next((a.arg for a in flat0.args.args if a.arg != "self"), "chunk")
+    pe = _PEval(repo, ci, owner, k, cparam)
+    try:
+        pe.run(stmts_of(flat0))
+        unk = getattr(pe, "unknown", None)
+        if unk is None:
+            return "", None
+        res = unk
+    except _PEval.Stop as s:
+        res = (s.target, s.node)
+    except Exception:
+        res = ("?error", None)
+    if not res[0].startswith("?"):
+        return res
     names = {"chunk.chnm"}
     for n in walk_no_nested(fn):
         if isinstance(n, ast.Assign) and norm(n.value) == "chunk.chnm" and isinstance(n.targets[0], ast.Name):
